@@ -167,4 +167,34 @@ theorem ret_dones (k₁ : Relay.Kind σ₁ α β) (k₂ : Relay.Kind σ₂ β γ
       | lo l => cases l <;> simp [DoneFr] at hf; simpa [advance, opStep, comp, compose, machine, step] using hn
       | hi l => cases l <;> simp [DoneFr] at hf; simpa [advance, opStep, comp, compose, machine, step] using hn
 
+macro "run" n:num m:num : tactic =>
+  `(tactic| (refine ⟨$n, $m, ?_⟩; simp [advance, opStep, comp, compose, machine, enter, step, fuse, *]))
+
+/-- the macro-step simulation: the fused relay can make the same environment move, and after both have run to their next
+environment turn the configurations are related again -/
+theorem sim_step (k₁ : Relay.Kind σ₁ α β) (k₂ : Relay.Kind σ₂ β γ)
+    (h₁ : k₁.slotted = false → ∀ s a, (k₁.xfer s a).2 ≠ none) (h₂ : k₂.slotted = false → ∀ s b, (k₂.xfer s b).2 ≠ none)
+    (s t : Sys (St σ₁ × St σ₂) (CLoc α β γ) α γ) (s' : Sys (St (σ₁ × σ₂)) (Loc α γ) α γ) (m : Move α)
+    (hs : Sim k₁ k₂ s s') (he : EnvStep (comp k₁ k₂) m s t) :
+    ∃ t', EnvStep (machine (fuse k₁ k₂)) m s' t' ∧
+      ∃ n n', Sim k₁ k₂ (advance (comp k₁ k₂) n t) (advance (machine (fuse k₁ k₂)) n' t') := by
+  obtain ⟨⟨sl', pr'⟩, stk', g', tr', p'⟩ := s'
+  cases he with
+  | @call st stk g tr c i hc hl =>
+    obtain ⟨⟨s1, p1⟩, ⟨s2, p2⟩⟩ := st
+    obtain ⟨hg, htr, _, hp', hpriv, hstk, hslots⟩ := hs
+    simp only at hg htr hp' hpriv hstk hslots
+    subst hg htr hp' hpriv
+    have hc' : ctxOf stk' = some c := hstk.ctx ▸ hc
+    have hlen := hstk.length
+    refine ⟨_, EnvStep.call i hc' hl, ?_⟩
+    rw [← hlen]
+    cases i with
+    | subscribe k =>
+      run 2 1
+      trace_state
+      sorry
+    | _ => sorry
+  | @ret st stk g tr o l hl => sorry
+
 end Cb.Fuse
